@@ -85,6 +85,9 @@ void CommonLoop::runThisBeforeLoop()
     loop_thread_id_ = std::this_thread::get_id();
     run_event_fd_ = event_fd;
     sp_run_read_event_ = sp_read_event;
+    //! 上一次 runLoop() 退出时可能遗留了"已提交"标记（对应的 eventfd 已被关闭），
+    //! 新的 eventfd 上还没有任何唤醒请求，必须复位，否则之后的 runInLoop() 都不会再唤醒 Loop
+    has_commit_run_req_ = false;
 
     if (!run_in_loop_func_queue_.empty())
         commitRunRequest();
